@@ -403,6 +403,12 @@ class Monitor:
                     self.viol['C06'].append(('foreign_cancellation',
                                              f'caller {cid} on {c["loop"]} ended with CancelledError at t={c["t1"]} '
                                              f'but nobody cancelled its task (its loop was running normally)'))
+                    # C05: 'finishes with a value, an exception or its caller's OWN cancellation'; a caller whose
+                    # hosting loop died must recover by recomputing, not end with somebody else's cancellation
+                    self.viol['C05'].append(('ended_by_foreign_cancellation_instead_of_recovering',
+                                             f'caller {cid} on {c["loop"]} ended with CancelledError at t={c["t1"]} '
+                                             f'although nobody cancelled its task; loops that died while it waited: '
+                                             f'{c.get("deaths")}'))
             elif out[0] == 'exc':
                 e = out[1]
                 if isinstance(e, HarnessError):
